@@ -1,8 +1,8 @@
 package c11
 
 import (
+	"fmt"
 	"os"
-	"runtime/pprof"
 	"testing"
 	"testing/synctest"
 	"time"
@@ -14,13 +14,27 @@ func TestDbg(t *testing.T) {
 	if os.Getenv("C11_DBG") == "" {
 		t.Skip()
 	}
+	var t0, t1, t2, t3, t4 time.Time
 	synctest.Test(t, func(t *testing.T) {
+		t0 = realNow()
 		n, err := homesim.New(homesim.Conf{SessionTTL: 60, Attempts: 10, BlockDur: time.Minute, JustInstalled: true, Full: true})
 		if err != nil {
 			t.Fatal(err)
 		}
+		t1 = realNow()
+		for i := 0; i < 1000; i++ {
+			_, _ = n.Do(&homesim.Req{Method: "GET", Target: "/control/status"})
+		}
+		t2 = realNow()
+		for i := 0; i < 100; i++ {
+			_, _ = n.H.StateDigest()
+		}
+		t3 = realNow()
+		for i := 0; i < 100; i++ {
+			_, _ = n.Do(&homesim.Req{Method: "GET", Target: "/control/status", BasicUser: "admin", BasicPass: "x"})
+		}
+		t4 = realNow()
 		n.Close()
-		synctest.Wait()
-		pprof.Lookup("goroutine").WriteTo(os.Stdout, 1)
 	})
+	fmt.Println("assemble", t1.Sub(t0), "1000 req", t2.Sub(t1), "100 digests", t3.Sub(t2), "100 basic", t4.Sub(t3))
 }
